@@ -22,9 +22,8 @@ def _merge(a: dict, b: dict, path=None):
         if key in a:
             if isinstance(a[key], dict) and isinstance(b[key], dict):
                 _merge(a[key], b[key], path + [str(key)])
-            elif a[key] == b[key]:
-                pass  # same leaf value
             else:
+                # NOTE: don't skip "equal" leaves, 1 == 1.0 == True but they are different TOML values
                 a[key] = b[key]
         else:
             a[key] = b[key]
